@@ -36,7 +36,7 @@ pub const STATEMENTS: &[&str] = &[
     "echo l2/", "echo l?/a",
     // pipes, substitutions, here-documents, read
     "echo a | cat", "echo a | cat | cat", "gen 3000 1 | cat > big", "gen 1500 0 | cat | cat >> big", "x=$(cat f0); echo \"[$x]\"", "echo \"$(echo in; echo in2)\"",
-    "x=$(gen 700 2); echo ${#x}", "cat <<EOF\nhello ${PWD##*/}\nEOF", "cat <<'EOF'\nraw $x\nEOF", "cat <<-EOF\n\ttabbed\n\tEOF", "read v < f0; echo \"$v\"",
+    "x=$(gen 700 2); echo ${#x}", "cat <<EOF\nhello ${PWD##*/}\nEOF", "cat <<'EOF'\nraw $x\nEOF", "cat <<-EOF\n\ttabbed\n\tEOF", "cat 3<<E <&3\nthree\nE", "exec 3<<E\npersist\nE\ncat <&3", "cat 4<<E <&4\nfour\nE", "cat <<E 3<&0 <&3\ndup\nE", "read v < f0; echo \"$v\"",
     "read a b < f0; echo \"$a|$b\"", "echo 'p q  r' > f1; read a b < f1; echo \"$a|$b\"", "read v < nofile; echo $?", "while read l; do echo \"[$l]\"; done < f0",
     "echo $(echo a | cat)", "st 7 | st 0; echo $?", "st 0 | st 7; echo $?", "set -o pipefail", "set +o pipefail", "! st 0; echo $?",
     // subshells, umask
